@@ -253,6 +253,19 @@ func c11Scenario(t *testing.T, res *common.Result, rng *common.Rng, cfg c11cfg, 
 		}
 	}
 
+	// a gRPC client that has opened a call and not finished it (headers sent, no message): in flight for
+	// as long as the peer likes; the server's shutdown must not wait for it
+	stalledStream := false
+	if point%2 == 1 || point == N {
+		if sc, err := openStalledGrpcStream(srv.grpcAddr); err == nil {
+			defer sc.Close()
+			stalledStream = true
+			time.Sleep(50 * time.Millisecond)
+			logf("grpc(third connection) TryLock: HEADERS sent, no message, stream left open")
+		}
+	}
+	res.Count(fmt.Sprintf("stalled-grpc-stream-in-flight:%v", stalledStream))
+
 	// a slow REST client: a request of a session of its own whose headers have arrived and whose body is
 	// only partly sent when the signal comes (in flight in the strictest sense: the handler is reading it)
 	stalledReq := false
